@@ -67,9 +67,16 @@ class C20Monitor(Monitor):
                     if len(crit_calls) != 1:
                         self.violate(w, "truthy_result_not_sent_to_criteria", f"driver={drv}|result={type(eval(res)).__name__}",
                                      f"move returned {res}; criteria called {len(crit_calls)} times")  # noqa: S307
-                    elif verdict is None or bool(raw) != bool(eval(crit_calls[0][2])):  # noqa: S307
+                    elif bool(raw) != bool(eval(crit_calls[0][2])):  # noqa: S307
                         self.violate(w, "criteria_verdict_not_recorded", f"driver={drv}",
                                      f"criteria returned {crit_calls[0][2]}, history says {raw!r}")
+                    elif not eval(crit_calls[0][2]) and drv != "MonteCarlo":  # noqa: S307
+                        # a falsy verdict of whatever type is a rejection: the trial must be undone
+                        # (the base driver's context remembers nothing to undo with)
+                        if pre["n"] != post["n"] or not np.array_equal(pre["positions"], post["positions"]) or pre["cell"] != post["cell"]:
+                            self.violate(w, "rejected_by_user_criteria_but_not_undone", f"driver={drv}|verdict_type={type(eval(crit_calls[0][2])).__name__}",  # noqa: S307
+                                         f"criteria returned {crit_calls[0][2]} (falsy) but the trial configuration is still on the atoms")
+                        w.result.count("probe.falsy_verdicts_checked")
                 else:
                     if crit_calls or verdict is not None:
                         self.violate(w, "falsy_result_not_recorded_as_not_attempted",
@@ -183,7 +190,7 @@ class C20(HistoryCampaign):
         for j in range(rnd.randint(1, 2)):
             kinds = ["disp", "noop"] + (["cell", "cell"] if drv in ("Isobaric", "Isotension") else [])
             sc["moves"].append({"name": f"bare{j}", "criteria": "bare",
-                                "verdicts": [rnd.random() < 0.6 for _ in range(rnd.randint(1, 6))],
+                                "verdicts": [rnd.choice([True, True, False, None, 0, 1, "", "x"]) for _ in range(rnd.randint(1, 6))],
                                 "probability": gen.rfloat(rnd, 0.5, 3.0, 2),
                                 "move": {"type": "bare", "kind": rnd.choice(kinds), "equality": equality,
                                          "step": gen.logu(rnd, 0.01, 0.2) if rnd.random() < 0.6 else gen.logu(rnd, 1e-10, 1e-3),
